@@ -105,6 +105,8 @@ def with_ctor(cases):
         out.append(c)
         if i % 5 == 2 and "calls" in c:
             out.append(dict(c, ctor=True, family=c.get("family", "") + "+constructor"))
+        if i % 5 == 4 and "calls" in c:
+            out.append(dict(c, ctor="bare", family=c.get("family", "") + "+constructor-without-states-and-symbols"))
     return out
 
 
@@ -176,7 +178,14 @@ def replay(case):
     if case.get("ctor"):
         # the same automaton built by the constructor (transition function handed over as a whole): it must be the
         # same abstract value and answer every query below in the same way
-        r = fa.rebuild_by_constructor(a)
+        bare = case.get("ctor") == "bare"
+        if bare:
+            # without the `states` / `input_symbols` arguments only states and symbols that occur in a transition or as
+            # start / final state can be known to the object: the case is compared on such automata only
+            used = set(a.start_states) | set(a.final_states) | {s for s, _, _ in a} | {t for _, _, t in a}
+            if used != set(a.states) or {y for _, y, _ in a if fa.tag_sym(y) != "eps"} != set(a.symbols):
+                bare = False
+        r = fa.rebuild_by_constructor(a, bare=bare)
         if r[0] != "ok":
             evs.append({"op": "accepts", "A": A, "exc": "constructor:" + (r[1] if r[0] == "exc" else "Timeout"), "words": [], "acc": []})
             return evs
